@@ -561,6 +561,20 @@ func c06c(c *Ctx) {
 					sources = append(sources, x)
 					srcName[x] = "case-map-lookup[" + pretty(c.term(fn, x.Index)) + "]"
 				}
+			case *ssa.Field:
+				// the data of a case kept in a record of the case map: `cases[k].impData`
+				if isImpDataPtr(x.Type()) {
+					var leaves []ssa.Value
+					phiLeaves(x.X, map[ssa.Value]bool{}, &leaves)
+					fromMap := len(leaves) > 0
+					for _, lf := range leaves {
+						fromMap = fromMap && lookupMap(lf) != nil
+					}
+					if fromMap {
+						sources = append(sources, x)
+						srcName[x] = "case-map-record[" + pretty(c.term(fn, x)) + "]"
+					}
+				}
 			}
 		})
 		if len(sources) == 0 {
@@ -635,6 +649,23 @@ func c06c(c *Ctx) {
 				case *ssa.MapUpdate:
 					if y.Value == v {
 						otherSink[v] = true
+					}
+				case *ssa.Store:
+					// put into a record that is stored in a map (`cases[k] = caseRecord{..., impData: v}`)
+					if fa, ok := y.Addr.(*ssa.FieldAddr); ok && y.Val == v {
+						if a, ok := fa.X.(*ssa.Alloc); ok && a.Referrers() != nil {
+							for _, ar := range *a.Referrers() {
+								ld, ok := ar.(*ssa.UnOp)
+								if !ok || ld.Referrers() == nil {
+									continue
+								}
+								for _, lr := range *ld.Referrers() {
+									if mu, ok := lr.(*ssa.MapUpdate); ok && mu.Value == ssa.Value(ld) {
+										otherSink[v] = true
+									}
+								}
+							}
+						}
 					}
 				}
 			}
